@@ -875,4 +875,31 @@ func checkDeadlineAwait(c *report.Ctx) {
 		}
 	})
 	c.Check("R-GUARD", T+".AwaitRuntimeReadyWithDeadline/select-on-deadline", "the wait selects between the gate and the deadline context", nsel == 1 && hasDone, fpos(m), nsel, "selects: %d, ctx.Done case: %v", nsel, hasDone)
+	// what is returned: the waiter's result, or ErrRestoreHookTimeout on expiry - never nil by default
+	gotTimeout, gotWaiter, other := false, false, []string{}
+	for _, e := range an.Exits(m) {
+		if len(e.Vals) != 1 {
+			continue
+		}
+		for _, leaf := range an.PhiLeaves(e.Vals[0]) {
+			switch {
+			case an.GlobalOf(leaf) == "L/interop.ErrRestoreHookTimeout":
+				gotTimeout = true
+			case isSelectRecv(leaf):
+				gotWaiter = true
+			default:
+				other = append(other, an.Path(leaf))
+			}
+		}
+	}
+	c.Check("R-WIRE", T+".AwaitRuntimeReadyWithDeadline/returns-timeout-or-waiter-result", "the call returns the gate waiter's result or, on expiry, ErrRestoreHookTimeout - nothing else (in particular not nil after a timeout)", gotTimeout && gotWaiter && len(other) == 0, fpos(m), 3, "returns the timeout error: %v; the waiter's result: %v; other values: %v", gotTimeout, gotWaiter, other)
+}
+
+func isSelectRecv(v ssa.Value) bool {
+	ex, ok := v.(*ssa.Extract)
+	if !ok {
+		return false
+	}
+	_, isSel := ex.Tuple.(*ssa.Select)
+	return isSel && ex.Index >= 2
 }
